@@ -5,28 +5,50 @@
 (* history of MaxBlocks blocks, every max-gas setting of MaxGases          *)
 (* (including -1 = unlimited, 0 and 1 where the gas target is zero) and    *)
 (* every integer minimum gas price 0..MaxMinP.                             *)
+(*                                                                         *)
+(* Governance: a block's end-blockers may execute a passed x/feemarket     *)
+(* MsgUpdateParams, which stores the proposal's parameters VERBATIM (new   *)
+(* minimum gas price, and whatever base fee the proposal carries).  The    *)
+(* application orders the fee market end-blocker last (EndOrder =          *)
+(* "gov-then-fee", app/modules.go orderEndBlockers), so the floor and the  *)
+(* EIP-1559 step are applied to the updated parameters within the same     *)
+(* block and AtLeastMinAfterFirst survives parameter changes.  EndOrder =  *)
+(* "fee-then-gov" is the named deviation: the next block starts with the   *)
+(* proposal's raw base fee, below the new floor (FeeMarket_mc_dev_order).  *)
 (***************************************************************************)
 EXTENDS FeeMarket
 
-CONSTANTS MaxB, MaxMinP, MaxGases, MaxBlocks, UnlimitedUsed
+CONSTANTS MaxB, MaxMinP, MaxGases, MaxBlocks, UnlimitedUsed, EndOrder, GovFull
 
-VARIABLES b, maxGas, minP, h, used
-vars == <<b, maxGas, minP, h, used>>
+VARIABLES b, maxGas, minP, h, used, gv
+vars == <<b, maxGas, minP, h, used, gv>>
 
 McMaxGases == {-1, 0, 1, 2, 3, 8, 12}
 McMaxGasesThorough == {-1, 0, 1, 2, 3, 4, 7, 8, 12, 20}
 
 Fill(mg) == IF mg = -1 THEN 0..UnlimitedUsed ELSE 0..mg
 
-Init == b \in 0..MaxB /\ maxGas \in MaxGases /\ minP \in 0..MaxMinP /\ h = 0 /\ used = 0
+Init == b \in 0..MaxB /\ maxGas \in MaxGases /\ minP \in 0..MaxMinP /\ h = 0 /\ used = 0 /\ gv = FALSE
+
+(* the fee market end-blocker on stored parameters (bb, mp) *)
+FeeEnd(bb, u, mp) == IF Defined(u, maxGas) THEN Next(bb, u, maxGas, mp) ELSE FMax(bb, mp)   \* where the formula is undefined: keep the fee
+
+(* what a passed proposal may carry: any minimum gas price, and a base fee copied from some earlier query *)
+GovB == {0, 1, MaxB \div 2}
+Proposals == {[on |-> FALSE, minP |-> 0, b |-> 0]} \cup
+             {[on |-> TRUE, minP |-> m, b |-> nb] : m \in (IF GovFull THEN 0..MaxMinP ELSE {0, MaxMinP}), nb \in (IF GovFull THEN GovB ELSE {0, MaxB \div 2})}
 
 McNext ==
   /\ h < MaxBlocks
   /\ h' = h + 1
-  /\ UNCHANGED <<maxGas, minP>>
-  /\ \E u \in Fill(maxGas) :
+  /\ UNCHANGED maxGas
+  /\ \E u \in Fill(maxGas), g \in Proposals :
        /\ used' = u
-       /\ b' = IF Defined(u, maxGas) THEN Next(b, u, maxGas, minP) ELSE FMax(b, minP)   \* where the formula is undefined: keep the fee
+       /\ gv' = g.on
+       /\ minP' = IF g.on THEN g.minP ELSE minP
+       /\ b' = IF ~g.on THEN FeeEnd(b, u, minP)
+               ELSE IF EndOrder = "gov-then-fee" THEN FeeEnd(g.b, u, g.minP)
+               ELSE g.b                                  \* "fee-then-gov": the proposal overwrites what the fee market just stored
 
 Spec == Init /\ [][McNext]_vars
 
@@ -35,12 +57,14 @@ T == maxGas \div 2
 NonNeg == b >= 0
 AtLeastMinAfterFirst == h > 0 => b >= minP
 TotalLaw == [][\A u \in Fill(maxGas) : Defined(u, maxGas) \/ maxGas \div 2 = 0]_vars
-UnchangedAtTarget == [][maxGas >= 0 /\ used' = T /\ b >= minP => b' = b]_vars
-UpAtLeastOne == [][maxGas >= 2 /\ used' > T => b' >= b + 1]_vars
-UpAtMostEighthPlusOne == [][maxGas >= 2 /\ used' > T /\ used' <= 2 * T /\ b >= minP => b' <= b + FMax(b \div 8, 1)]_vars
-DownBounded == [][(maxGas = -1 \/ used' < T) /\ b >= minP => b' <= b /\ b' >= b - (b \div 8) /\ b' >= minP]_vars
+UnchangedAtTarget == [][~gv' /\ maxGas >= 0 /\ used' = T /\ b >= minP => b' = b]_vars
+UpAtLeastOne == [][~gv' /\ maxGas >= 2 /\ used' > T => b' >= b + 1]_vars
+UpAtMostEighthPlusOne == [][~gv' /\ maxGas >= 2 /\ used' > T /\ used' <= 2 * T /\ b >= minP => b' <= b + FMax(b \div 8, 1)]_vars
+DownBounded == [][~gv' /\ (maxGas = -1 \/ used' < T) /\ b >= minP => b' <= b /\ b' >= b - (b \div 8) /\ b' >= minP]_vars
 (* the step is monotone in the block fill *)
 Monotone == [][\A u1, u2 \in Fill(maxGas) : u1 <= u2 /\ Defined(u1, maxGas) /\ Defined(u2, maxGas) => Step(b, u1, maxGas) <= Step(b, u2, maxGas)]_vars
 (* the implementation predicate accepts exactly the specified value where the formula is defined *)
-NextOkExact == [][Defined(used', maxGas) => NextOk(b, used', maxGas, minP, b') /\ ~NextOk(b, used', maxGas, minP, b' + 1)]_vars
+NextOkExact == [][~gv' /\ Defined(used', maxGas) => NextOk(b, used', maxGas, minP, b') /\ ~NextOk(b, used', maxGas, minP, b' + 1)]_vars
+(* a parameter change is followed, in the same block, by floor and step on the updated parameters *)
+GovThenFee == [][gv' /\ Defined(used', maxGas) => b' >= minP' /\ \E nb \in GovB : NextOk(nb, used', maxGas, minP', b')]_vars
 =============================================================================
